@@ -388,6 +388,10 @@ func TestECDSAVerify(t *testing.T) {
 	calibrate(t)
 	rapid.Check(t, func(t *rapid.T) {
 		msg := genMsg().Draw(t, "msg")
+		if rapid.IntRange(0, 7).Draw(t, "smallmsg") == 0 {
+			// below 2^256 - n, so that msg + n (same e mod n) is expressible
+			msg = b32(fromBytes(rapid.SliceOfN(rapid.Byte(), 1, 16).Draw(t, "msg128")))
+		}
 		var q secp.Point
 		var r, s *big.Int
 		cls := ""
@@ -416,10 +420,16 @@ func TestECDSAVerify(t *testing.T) {
 				if rapid.IntRange(0, 7).Draw(t, "redge") == 0 {
 					r = add(pMinusN, int64(-rapid.IntRange(1, 40).Draw(t, "rdelta")))
 				}
+			} else if rapid.Bool().Draw(t, "rinrange") {
+				r = genPriv().Draw(t, "rin")
 			} else {
 				r = genU256().Draw(t, "r")
 			}
-			s = genU256().Draw(t, "s")
+			if rapid.Bool().Draw(t, "sinrange") {
+				s = genPriv().Draw(t, "sin")
+			} else {
+				s = genU256().Draw(t, "s")
+			}
 			var ok bool
 			q, ok = secp.RecoverECDSA(msg, r, s, recid)
 			if !ok {
@@ -442,7 +452,11 @@ func TestECDSAVerify(t *testing.T) {
 		// one mutation
 		mut := "none"
 		if wantValid {
-			switch rapid.IntRange(0, 17).Draw(t, "mut") {
+			mutKind := rapid.IntRange(0, 17).Draw(t, "mut")
+			if fromBytes(msg).BitLen() <= 128 && mutKind >= 10 && mutKind%2 == 0 {
+				mutKind = 6
+			}
+			switch mutKind {
 			case 0:
 				r, mut = add(r, 1), "r+1"
 			case 1:
